@@ -54,7 +54,9 @@ func stdFns() []stdFn {
 			}
 			return out
 		}, maxLen: []int{3, 2}},
-		{name: "Repeat", nStr: 1, count: true, call: func(a []string, n string) string { return "print(\"[\" + strings.Repeat(" + a[0] + ", " + n + ") + \"]\")\n" },
+		{name: "Repeat", nStr: 1, count: true, call: func(a []string, n string) string {
+			return "print(\"[\" + strings.Repeat(" + a[0] + ", " + n + ") + \"]\")\n"
+		},
 			ref: func(a []string, n int) string {
 				if n < 0 {
 					return "\x00panic"
@@ -85,15 +87,25 @@ func stdFns() []stdFn {
 			x, y, f := strings.Cut(a[0], a[1])
 			return "[" + x + "] [" + y + "] " + b01(f) + "\n"
 		}, maxLen: []int{3, 2}},
-		{name: "TrimPrefix", nStr: 2, call: func(a []string, n string) string { return "print(\"[\" + strings.TrimPrefix(" + a[0] + ", " + a[1] + ") + \"]\")\n" },
+		{name: "TrimPrefix", nStr: 2, call: func(a []string, n string) string {
+			return "print(\"[\" + strings.TrimPrefix(" + a[0] + ", " + a[1] + ") + \"]\")\n"
+		},
 			ref: func(a []string, n int) string { return "[" + strings.TrimPrefix(a[0], a[1]) + "]\n" }, maxLen: []int{2, 2}},
-		{name: "TrimSuffix", nStr: 2, call: func(a []string, n string) string { return "print(\"[\" + strings.TrimSuffix(" + a[0] + ", " + a[1] + ") + \"]\")\n" },
+		{name: "TrimSuffix", nStr: 2, call: func(a []string, n string) string {
+			return "print(\"[\" + strings.TrimSuffix(" + a[0] + ", " + a[1] + ") + \"]\")\n"
+		},
 			ref: func(a []string, n int) string { return "[" + strings.TrimSuffix(a[0], a[1]) + "]\n" }, maxLen: []int{2, 2}},
-		{name: "TrimLeft", nStr: 2, call: func(a []string, n string) string { return "print(\"[\" + strings.TrimLeft(" + a[0] + ", " + a[1] + ") + \"]\")\n" },
+		{name: "TrimLeft", nStr: 2, call: func(a []string, n string) string {
+			return "print(\"[\" + strings.TrimLeft(" + a[0] + ", " + a[1] + ") + \"]\")\n"
+		},
 			ref: func(a []string, n int) string { return "[" + strings.TrimLeft(a[0], a[1]) + "]\n" }, maxLen: []int{3, 2}},
-		{name: "TrimRight", nStr: 2, call: func(a []string, n string) string { return "print(\"[\" + strings.TrimRight(" + a[0] + ", " + a[1] + ") + \"]\")\n" },
+		{name: "TrimRight", nStr: 2, call: func(a []string, n string) string {
+			return "print(\"[\" + strings.TrimRight(" + a[0] + ", " + a[1] + ") + \"]\")\n"
+		},
 			ref: func(a []string, n int) string { return "[" + strings.TrimRight(a[0], a[1]) + "]\n" }, maxLen: []int{3, 2}},
-		{name: "Trim", nStr: 2, call: func(a []string, n string) string { return "print(\"[\" + strings.Trim(" + a[0] + ", " + a[1] + ") + \"]\")\n" },
+		{name: "Trim", nStr: 2, call: func(a []string, n string) string {
+			return "print(\"[\" + strings.Trim(" + a[0] + ", " + a[1] + ") + \"]\")\n"
+		},
 			ref: func(a []string, n int) string { return "[" + strings.Trim(a[0], a[1]) + "]\n" }, maxLen: []int{3, 2}},
 		{name: "TrimSpace", nStr: 1, call: func(a []string, n string) string { return "print(\"[\" + strings.TrimSpace(" + a[0] + ") + \"]\")\n" },
 			ref: func(a []string, n int) string { return "[" + strings.TrimSpace(a[0]) + "]\n" }, maxLen: []int{3}},
